@@ -51,8 +51,11 @@ class Part:
 
 
 Parts = tuple  # tuple[Part, ...]
-MAX_ALTS = 48
-MAX_PARTS = 10  # widening: longer concatenations (accumulating error texts) lose their structure
+# widening bounds; the thorough tier (VERIF_DEEP=1) re-runs the fixpoint with doubled bounds: widening only ever adds labels, so a
+# finding must survive the more precise run and no finding may appear only there
+DEEP = __import__("os").environ.get("VERIF_DEEP") == "1"
+MAX_ALTS = 96 if DEEP else 48
+MAX_PARTS = 14 if DEEP else 10  # longer concatenations (accumulating error texts) lose their structure
 MAX_DEPTH = 4
 
 
